@@ -31,14 +31,14 @@ T_RxF == IsEvent("rxf") /\ LET r == Rec[l]
   THEN IF r.ty \in {"padding", "ping", "ack", "crypto", "conn_close"} THEN UNCHANGED rrvars ELSE Violation(e, {PROTOCOL_VIOLATION})
   ELSE CASE r.ty = "stream" ->
               LET v == StreamVerdict(e, r.id, r.off, r.len, r.fin) IN
-              IF r.id \in done[e] /\ v # {STREAM_LIMIT_ERROR} /\ v # {STREAM_STATE_ERROR} THEN UNCHANGED rrvars   \* named: terminal receive state, frames may be ignored
+              IF v # {} /\ r.id \in done[e] /\ v # {STREAM_LIMIT_ERROR} /\ v # {STREAM_STATE_ERROR} THEN UNCHANGED rrvars   \* named: terminal receive state, frames may be ignored
               ELSE IF v # {} THEN Judge(e, r, v)
               ELSE /\ recvEnd' = [recvEnd EXCEPT ![e][r.id] = Max2(@, r.off + r.len)]
                    /\ finalSz' = IF r.fin THEN [finalSz EXCEPT ![e][r.id] = r.off + r.len] ELSE finalSz
                    /\ UNCHANGED <<cfg, advSD, advD, advStreams, done, opened, consumed, mustClose>>
          [] r.ty = "reset_stream" ->
               LET v == ResetVerdict(e, r.id, r.final) IN
-              IF r.id \in done[e] /\ v # {STREAM_LIMIT_ERROR} /\ v # {STREAM_STATE_ERROR} THEN UNCHANGED rrvars
+              IF v # {} /\ r.id \in done[e] /\ v # {STREAM_LIMIT_ERROR} /\ v # {STREAM_STATE_ERROR} THEN UNCHANGED rrvars
               ELSE IF v # {} THEN Judge(e, r, v)
               ELSE /\ recvEnd' = [recvEnd EXCEPT ![e][r.id] = Max2(@, r.final)]
                    /\ finalSz' = [finalSz EXCEPT ![e][r.id] = r.final]
@@ -81,11 +81,14 @@ T_AppRecv == IsEvent("app_recv") /\ LET r == Rec[l] IN
   /\ UNCHANGED <<cfg, advSD, advD, advStreams, recvEnd, finalSz, done, opened, mustClose>>
 T_AppEos == IsEvent("app_eos") /\ done' = [done EXCEPT ![Rec[l].ep] = @ \cup {Rec[l].id}]
             /\ UNCHANGED <<cfg, advSD, advD, advStreams, recvEnd, finalSz, opened, consumed, mustClose>>
+\* the application gave up the receiving side: the unread part counts as consumed from now on
+T_AppStop == IsEvent("app_stop") /\ done' = [done EXCEPT ![Rec[l].ep] = @ \cup {Rec[l].id}]
+             /\ UNCHANGED <<cfg, advSD, advD, advStreams, recvEnd, finalSz, opened, consumed, mustClose>>
 T_Closed == IsEvent("conn_closed") /\ LET r == Rec[l] IN
   /\ mustClose[r.ep] # {} => (r.error.kind = "transport" /\ r.error.local /\ r.error.code \in mustClose[r.ep])
   /\ mustClose' = [mustClose EXCEPT ![r.ep] = {}]
   /\ UNCHANGED <<cfg, advSD, advD, advStreams, recvEnd, finalSz, done, opened, consumed>>
 T_End == IsEvent("sim_end") /\ (\A e \in Ep : mustClose[e] = {}) /\ UNCHANGED rrvars
-TNext == T_Reset \/ T_RxF \/ T_TxF \/ T_AppOpen \/ T_AppRecv \/ T_AppEos \/ T_Closed \/ T_End
+TNext == T_Reset \/ T_RxF \/ T_TxF \/ T_AppOpen \/ T_AppRecv \/ T_AppEos \/ T_AppStop \/ T_Closed \/ T_End
 TSpec == TInit /\ [][TNext]_<<rrvars, l>>
 =============================================================================
